@@ -322,6 +322,7 @@ class Exec:
         if h is not None:
             return h
         norm = mp.strip_generics(callee).strip()
+        norm = re.sub(r' as (?:std|core|alloc)::(?:[a-z_0-9]+::)*', ' as ', norm)
         res = None
         for pat, fnc, name in self.overrides:
             if pat.search(norm):
@@ -660,23 +661,36 @@ class Ctx:
             cell = frame.get('cell:' + loc)
             if cell is None:
                 cell = LocalCell(frame, loc); frame['cell:' + loc] = cell
-            return Ref(cell, self._norm_path(proj, frame))
+            return Ref(cell, self._norm_path(proj, frame, frame.get(loc)))
         base = self.read(frame, (loc, proj[:last]))
-        rest = self._norm_path(proj[last + 1:], frame)
         if isinstance(base, BoxV):
-            return Ref(base.cell, rest)
+            return Ref(base.cell, self._norm_path(proj[last + 1:], frame, base.cell.v))
         if not isinstance(base, Ref):
             raise Unmodelled('reborrow through %r' % (type(base).__name__,))
+        tgt = None
+        try:
+            tgt = self.project(base.cell.v, base.path)
+        except Exception:
+            tgt = None
+        rest = self._norm_path(proj[last + 1:], frame, tgt)
         return Ref(base.cell, tuple(base.path) + tuple(rest))
 
-    def _norm_path(self, proj, frame):
+    def _norm_path(self, proj, frame, base=None):
         out = []
         for p in proj:
             if p[0] == 'index':
                 iv = frame[p[1]]
                 i = conc(iv)
                 if i is None:
-                    raise Unmodelled('reference to symbolic index')
+                    # MIR checks bounds before it indexes: fork over the in-bounds positions
+                    n = 16
+                    if base is not None:
+                        try:
+                            cont = self.project(base, tuple(out))
+                            n = len(cont.items) if hasattr(cont, 'items') else (len(cont.f) if isinstance(cont, Agg) else 16)
+                        except Exception:
+                            n = 16
+                    i = self.concretize(iv, range(n))
                 out.append(('idx', i))
             elif p[0] == 'field':
                 out.append(('field', p[1]))
